@@ -163,6 +163,22 @@ class Ref:
                 val[outs[0]] = np.pad(val[ins[0]], [(int(a), int(b2)) for a, b2 in pads.reshape(-1, 2)], constant_values=zp[0])
             elif k == "RESHAPE":
                 val[outs[0]] = val[ins[0]].reshape(self.tens(outs[0])["shape"])
+            elif k in ("RESIZE_NEAREST_NEIGHBOR", "RESIZE_BILINEAR"):
+                val[outs[0]] = self.resize(k, val[ins[0]], ins[0], outs[0], o)
+            elif k == "TRANSPOSE_CONV":
+                val[outs[0]] = self.tconv(val[ins[2]], ins, outs[0], o)
+            elif k == "QUANTIZE":
+                # reference_ops::Requantize: MultiplyByQuantizedMultiplier(in - zp_in, QuantizeMultiplier(s_in / s_out)) + zp_out
+                ti, to = self.tens(ins[0])["type"], self.tens(outs[0])["type"]
+                if ti not in QRANGE or to not in QRANGE:
+                    raise Unsupported("QUANTIZE %s -> %s" % (ti, to))
+                (si,), (zi,) = [x[:1] for x in self.quant(ins[0])]
+                (so,), (zo,) = [x[:1] for x in self.quant(outs[0])]
+                q, sh = quantize_multiplier(float(si) / float(so))
+                lo, hi = QRANGE[to]
+                flat = val[ins[0]].astype(np.int64).reshape(-1)
+                res = [min(hi, max(lo, mbqm(int(v) - int(zi), q, sh) + int(zo))) for v in flat]
+                val[outs[0]] = np.array(res, dtype=np.int64).reshape(val[ins[0]].shape)
             elif k in ("ADD", "SUB", "MUL", "MINIMUM", "MAXIMUM"):
                 val[outs[0]] = self.elementwise(k, ins, outs[0], o, val)
             elif k in ("LOGISTIC", "TANH", "LEAKY_RELU", "HARD_SWISH"):
@@ -207,6 +223,83 @@ class Ref:
         r = np.where(q >= 0, np.floor(q + 0.5), np.ceil(q - 0.5)).astype(np.int64) + int(zo)
         self.has_table_op = True
         return np.clip(r, lo, hi)
+
+    def resize(self, k, x, in_idx, out_idx, o):
+        """reference_ops::ResizeNearestNeighbor (exact); bilinear as the real interpolation, rounded (one step allowed: the
+        property lists resize among the approximated operators)"""
+        if self.quant(in_idx) != self.quant(out_idx) or self.tens(out_idx)["type"] not in ("int8", "uint8"):
+            raise Unsupported("resize with requantisation / type")
+        n, H, W, C = x.shape
+        oh, ow = self.tens(out_idx)["shape"][1:3]
+        ac, hp = bool(o.get("AlignCorners", False)), bool(o.get("HalfPixelCenters", False))
+        if k != "RESIZE_NEAREST_NEIGHBOR" and any(out_idx in op2["inputs"] for op2 in self.sg["operators"]):
+            raise Unsupported("bilinear resize (one step allowed) feeding another operator")
+        lo, hi = QRANGE[self.tens(out_idx)["type"]]
+        out = np.zeros((1, oh, ow, C), dtype=np.int64)
+        if k == "RESIZE_NEAREST_NEIGHBOR":
+            def src(i, n_in, n_out):
+                sc = np.float32(n_in - 1) / np.float32(n_out - 1) if (ac and n_out > 1) else np.float32(n_in) / np.float32(n_out)
+                off = np.float32(0.5) if hp else np.float32(0.0)
+                v = (np.float32(i) + off) * sc
+                j = int(np.floor(v + np.float32(0.5))) if ac else int(np.floor(v))     # TfLiteRound for align_corners
+                return min(j, n_in - 1)
+            for y in range(oh):
+                for xx in range(ow):
+                    out[0, y, xx, :] = x[0, src(y, H, oh), src(xx, W, ow), :]
+            return out
+        self.has_table_op = True       # one step allowed
+        xf = x.astype(np.float64)
+        for y in range(oh):
+            sy = (H - 1) / (oh - 1) if (ac and oh > 1) else H / oh
+            fy = (y + 0.5) * sy - 0.5 if hp else y * sy
+            y0 = int(np.floor(fy)); dy = fy - y0
+            y0c, y1c = min(max(y0, 0), H - 1), min(max(y0 + 1, 0), H - 1)
+            for xx in range(ow):
+                sx = (W - 1) / (ow - 1) if (ac and ow > 1) else W / ow
+                fx = (xx + 0.5) * sx - 0.5 if hp else xx * sx
+                x0 = int(np.floor(fx)); dx = fx - x0
+                x0c, x1c = min(max(x0, 0), W - 1), min(max(x0 + 1, 0), W - 1)
+                v = (xf[0, y0c, x0c, :] * (1 - dy) * (1 - dx) + xf[0, y0c, x1c, :] * (1 - dy) * dx
+                     + xf[0, y1c, x0c, :] * dy * (1 - dx) + xf[0, y1c, x1c, :] * dy * dx)
+                out[0, y, xx, :] = np.clip(np.where(v >= 0, np.floor(v + 0.5), np.ceil(v - 0.5)), lo, hi)
+        return out
+
+    def tconv(self, x, ins, out_idx, o):
+        """reference_integer_ops::TransposeConv (int8 / uint8 legacy): scatter, bias, per-channel requantisation"""
+        w = self.const(ins[1])
+        bias = self.const(ins[3]) if len(ins) > 3 and ins[3] >= 0 else None
+        if w is None:
+            raise Unsupported("dynamic weights")
+        sci, zpi = self.quant(ins[2])
+        scw, zpw = self.quant(ins[1])
+        if self.tens(ins[2])["type"] not in ("int8", "uint8"):
+            raise Unsupported("input type")
+        n, H, W, C = x.shape
+        oc, kh, kw, ic = w.shape
+        sh, sw_ = o.get("StrideH", 1), o.get("StrideW", 1)
+        oh, ow = self.tens(out_idx)["shape"][1:3]
+        if o.get("Padding", 0) == 0:   # SAME
+            pt = max(0, (H - 1) * sh + kh - oh) // 2
+            pl = max(0, (W - 1) * sw_ + kw - ow) // 2
+        else:
+            pt = pl = 0
+        xz = x.astype(np.int64) - zpi[0]
+        wz = w - (np.array(zpw, dtype=np.int64).reshape([-1, 1, 1, 1]) if len(zpw) > 1 else zpw[0])
+        acc = np.zeros((1, oh, ow, oc), dtype=np.int64)
+        for iy in range(H):
+            for ix in range(W):
+                for ky in range(kh):
+                    oy = iy * sh - pt + ky
+                    if oy < 0 or oy >= oh:
+                        continue
+                    for kx in range(kw):
+                        ox = ix * sw_ - pl + kx
+                        if ox < 0 or ox >= ow:
+                            continue
+                        acc[0, oy, ox, :] += wz[:, ky, kx, :] @ xz[0, iy, ix, :]
+        if bias is not None:
+            acc += bias.reshape([1, 1, 1, -1])
+        return self._requant(acc, ins[2], ins[1], out_idx, 0, oc)
 
     def elementwise(self, k, ins, out_idx, o, val):
         """reference_integer_ops / reference_ops Add, Sub, Mul (8-bit), Minimum, Maximum; add.cc / sub.cc / mul.cc Prepare"""
